@@ -613,6 +613,10 @@ def mutate(rng, root, layout, info, klass):
             ents = []
             for x in sorted(os.listdir(os.path.join(root, d))):
                 ap = os.path.join(root, d, x)
+                try:
+                    x.encode('utf8')
+                except UnicodeEncodeError:
+                    continue        # (a name that is not UTF-8 cannot be listed)
                 if os.path.isfile(ap) and not os.path.islink(ap) and not x.startswith('.'):
                     with open(ap, 'rb') as fh:
                         data = fh.read()
